@@ -1,10 +1,10 @@
 package sx
 
 import (
-	"strings"
 	"fmt"
 	"go/types"
 	"sort"
+	"strings"
 
 	"golang.org/x/tools/go/ssa"
 )
